@@ -2547,7 +2547,7 @@ BUFR_Dataset  *bufr_decode_message_subsets( BUFR_Message *msg, BUFR_Tables *tabl
                      {
                      int  msglen;
                      bsq2->list = tmplist;
-                     len = bufr_estimate_seq_length( bsq2, tables );
+                     len = bufr_minimum_seq_length( bsq2 );
                      msglen = (s4.len+len)/8;
 
                      if (msglen > (s4.max_len*3) )
